@@ -61,3 +61,11 @@ CASES += [
     dict(id='c15-eq-format-number-local-text', prop='C15', file=BU, expect=None,
          old="   dest.append( oss.str());\n\n} // Builder::formatNumber", new="   auto const  number_text = oss.str();\n\n   dest.append( number_text);\n\n} // Builder::formatNumber"),
 ]
+
+FH = 'src/celma/log/files/handler.hpp'
+CASES += [
+    dict(id='c15-eq-message-stream-renamed', prop='C15', expect=None, count=1,
+         edits=[(FH, "   std::ostringstream  msg_text;", "   std::ostringstream  formatted;"),
+                (FH, "   mpFormatter->formatMsg( msg_text, msg);", "   mpFormatter->formatMsg( formatted, msg);"),
+                (FH, "   mpFilePolicy->writeMessage( msg, msg_text.str());", "   mpFilePolicy->writeMessage( msg, formatted.str());")]),
+]
